@@ -145,6 +145,17 @@ Theorem C17_gq_short_params_refuted : forall T (S : Scalar T) (x : T) (p : list 
 Proof. exact @p_C17_gq_short_params_refuted. Qed.
 Print Assumptions C17_gq_short_params_refuted.
 
+(* a boundary flag (star or plus) on a surface made of several pieces (a macrobody
+   other than SPH / ELL) is not supported: the run stops in the boundary-condition
+   writer, whatever the other options, unless --skip-boundary-conditions *)
+Theorem C17_flagged_macrobody_rejected : forall T (S : Scalar T) (d : deckm (T:=T)) id,
+  d_skipbc d = false -> In id (d_flagged d) ->
+  (forall trs sm, stage_trs S (d_trs d) [] = Ok trs -> stage_surfs S trs (d_surfs d) [] = Ok sm ->
+     exists mn nm nt4, lookup id sm = Some (mn, (nm, nt4)) /\ (1 < nm)%nat) ->
+  is_ok (validate S d) = false.
+Proof. exact @run_flagged_macrobody_rejected. Qed.
+Print Assumptions C17_flagged_macrobody_rejected.
+
 (* ---------------- lattices ---------------- *)
 
 (* LAT=1|2 ... FILL=n (no ranges, no transformation) in the options of a cell
@@ -751,7 +762,7 @@ Definition ex_deck (m : Z) (so_params : list Z) (facet : option nat)
                   [ex_tok "imp:n" (sofZ FS 0) 0%Z; ex_tok "1" (sofZ FS 1) 1%Z];
           mkCellc 2%Z [mkLit 1%Z None] []
                   [ex_tok "imp:n" (sofZ FS 0) 0%Z; ex_tok "0" (sofZ FS 0) 0%Z]]
-         [["1001"; "0.5"; "8016"; "0.5"]] false.
+         [["1001"; "0.5"; "8016"; "0.5"]] false [] false.
 Example ex_deck_finishes : validate FS (ex_deck 1 [5]%Z (Some 3%nat)) = Ok tt.
 Proof. vm_compute. reflexivity. Qed.
 Example ex_deck_m_rejected : validate FS (ex_deck (-1) [5]%Z (Some 3%nat)) = Err ETransformation.
@@ -766,8 +777,16 @@ Definition ex_deck_skipped : deckm (T:=PrimFloat.float) :=
   mkDeck (d_latopts d) (d_surfs d) (d_trs d) (d_imps d)
          [mkCellc 1%Z [mkLit 1%Z None] [] [ex_tok "imp:n" (sofZ FS 0) 0%Z; ex_tok "1" (sofZ FS 1) 1%Z];
           mkCellc 2%Z [mkLit 2%Z (Some 9%nat)] [] [ex_tok "imp:n" (sofZ FS 0) 0%Z; ex_tok "0" (sofZ FS 0) 0%Z]]
-         (d_mats d) false.
+         (d_mats d) false [] false.
 Example ex_deck_skipped_finishes : validate FS ex_deck_skipped = Ok tt.
+Proof. vm_compute. reflexivity. Qed.
+(* the RCC of the example deck written with a star flag: rejected; skipped with the option *)
+Definition ex_deck_flagged (skipbc : bool) : deckm (T:=PrimFloat.float) :=
+  let d := ex_deck 1 [5]%Z None in
+  mkDeck (d_latopts d) (d_surfs d) (d_trs d) (d_imps d) (d_cells d) (d_mats d) false [2%Z] skipbc.
+Example ex_deck_flagged_rejected : validate FS (ex_deck_flagged false) = Err ENotImplemented.
+Proof. vm_compute. reflexivity. Qed.
+Example ex_deck_flagged_skipped : validate FS (ex_deck_flagged true) = Ok tt.
 Proof. vm_compute. reflexivity. Qed.
 Example ex_deck_surplus_finishes : validate FS (ex_deck 1 [5; 6]%Z None) = Ok tt.
 Proof. vm_compute. reflexivity. Qed.
